@@ -8,6 +8,7 @@ CONSTANTS
   WithQueries = TRUE
   WithMerge = TRUE
   Profile = "full"
+  Seed = "empty"
 VIEW View
 CONSTRAINT Bound
 ACTION_CONSTRAINT LogStep
